@@ -218,7 +218,9 @@ def run(tier):
 
     # R4-R6 number printing
     import numfmt
-    numfmt.rules(fx, ck, lambda g: g.file.endswith(("src/value.rs", "builtins/number.rs")))
+    if numfmt.learn_plain(F.load_fixture()) is None:
+        ck.closed_fail.append("R6: the format template of the fixture's plain `{}` / `{:.0}` printers could not be read (template encoding changed?)")
+    numfmt.rules(fx, ck, lambda g: g.file.startswith(("src/value.rs", "src/interpreter")))
     numfmt.to_string_rule(fx, ck, lambda g: g.file.startswith(("src/compiler", "src/interpreter", "src/value.rs")))
     numfmt.cast_rule(fx, ck, lambda g: g.file.endswith(("src/value.rs", "builtins/number.rs")))
     ckc = Check("C15", tier, "", [])
